@@ -1,35 +1,77 @@
 ----------------------------- MODULE MC_Demux -----------------------------
 (* Bounded model + replay generator for Demux.tla (property C19, demux).   *)
-(* EmitEdge is an ACTION_CONSTRAINT with a print side effect: one JSON     *)
-(* line per (state, action) pair TLC generates, carrying a history that    *)
-(* reaches the pre-state, the action, the outcomes the statement allows    *)
-(* for it (rule-tagged) and the exact outcome of the code-shaped model     *)
-(* (tag EXT).                                                              *)
+(*                                                                         *)
+(* EmitPkt is an ACTION_CONSTRAINT with a print side effect. It prints     *)
+(*  (1) one EDGE line per (registry state, packet) pair TLC generates:     *)
+(*      a shortest history reaching the state, the packet, the outcomes    *)
+(*      the statement allows (rule-tagged) and the exact outcome of the    *)
+(*      code-shaped model (tag EXT);                                       *)
+(*  (2) for every DESTRUCTIVE transition (one that overwrites or removes   *)
+(*      a registry entry: clear_listeners, removal of a closed listener,   *)
+(*      pruning, re-registration, list replacement, re-binding) one EDGE   *)
+(*      line per probe packet with the history *through* that transition.  *)
+(*      Such a transition usually leads to a registry state that a shorter *)
+(*      history reaches too, so (1) alone would assume - not test - that   *)
+(*      the implementation really forgot what the model forgot.            *)
 EXTENDS Demux, Json
+
+CONSTANT ProbeMaxLen   \* destructive transitions whose history (including the transition) is at most this long
+                       \* get probe edges
 
 ExtBoth == {<<TRUE, TRUE>>}
 ExtAll  == {<<TRUE, TRUE>>, <<TRUE, FALSE>>, <<FALSE, TRUE>>, <<FALSE, FALSE>>}
 
-DeliveredRule ==
-  IF last'.kind # "pkt" THEN "AtMostOne"
-  ELSE IF ~last'.identified /\ Cardinality(last'.holders) >= 2 THEN "AmbiguousPtDropped"
-  ELSE IF last'.failed # 0 \/ (\E l \in closed : l \in UNION last'.allowed) THEN "NeverToClosed"
+\* the packet's MID was registered earlier and a clear_listeners came after that registration
+StaleMidIn(h, mid) ==
+  /\ mid # 0
+  /\ \E i \in 1..Len(h) : /\ h[i].op = "mid"
+                          /\ h[i].m = mid
+                          /\ \E j \in (i+1)..Len(h) : h[j].op = "clear"
+
+RuleOf(l, h, mid, closedNow) ==
+  IF l.ridmid = {} /\ StaleMidIn(h, mid) THEN "OnlyRegistered"
+  ELSE IF ~l.identified /\ Cardinality(l.holders) >= 2 THEN "AmbiguousPtDropped"
+  ELSE IF l.failed # 0 \/ (\E x \in closedNow : x \in UNION l.allowed) THEN "NeverToClosed"
   ELSE "ChainRespected"
+
+ClsOf(l, after) ==
+  [ by |-> l.by, closedHit |-> (l.failed # 0), holders |-> Cardinality(l.holders),
+    provs |-> Cardinality(l.provs), identified |-> l.identified, unreg |-> l.unreg, after |-> after ]
 
 EdgeRec ==
   [ cfg |-> [rid |-> cfg.rid, mid |-> cfg.mid],
     pre |-> hist,
     act |-> hist'[Len(hist')],
-    exp |-> [ delivered |-> [allowed |-> last'.allowed, rule |-> DeliveredRule] ],
+    exp |-> [ delivered |-> [allowed |-> last'.allowed,
+                             rule |-> RuleOf(last', hist, hist'[Len(hist')].mid, closed)] ],
     ext |-> [ delivered |-> last'.delivered,
               bound |-> [s \in Ssrcs |-> bySsrc'[s] # 0] ],
-    cls |-> [ by |-> last'.by, closedHit |-> (last'.failed # 0),
-              holders |-> Cardinality(last'.holders), provs |-> Cardinality(last'.provs),
-              identified |-> last'.identified, unreg |-> last'.unreg ] ]
+    cls |-> ClsOf(last', "") ]
 
-EmitEdge == PrintT(<<"EDGE", ToJson(EdgeRec)>>)
-\* packets only: registrations have no observable outcome of their own; every registry state they
-\* produce is still probed by all packets
-EmitPkt  == IF last'.kind = "pkt" THEN PrintT(<<"EDGE", ToJson(EdgeRec)>>) ELSE TRUE
+\* the transition overwrote or removed something the registry knew
+Destructive ==
+  \/ \E s \in Ssrcs : bySsrc[s] # 0 /\ bySsrc'[s] # bySsrc[s]
+  \/ \E r \in Rids : byRid[r] # 0 /\ byRid'[r] # byRid[r]
+  \/ \E m \in Mids : byMid[m] # 0 /\ byMid'[m] # byMid[m]
+  \/ \E l \in Ls : route[l].on /\ (~route'[l].on \/ ~(route[l].pts \subseteq route'[l].pts))
+
+\* a probe packet evaluated in the state AFTER the transition
+ProbeRec(s, pt, rid, mid) ==
+  LET e == PktEffect(s, pt, rid, mid)' IN
+  [ cfg |-> [rid |-> cfg.rid, mid |-> cfg.mid],
+    pre |-> hist',
+    act |-> [op |-> "pkt", s |-> s, pt |-> pt, rid |-> rid, mid |-> mid],
+    exp |-> [ delivered |-> [allowed |-> e.last.allowed, rule |-> RuleOf(e.last, hist', mid, closed')] ],
+    ext |-> [ delivered |-> e.last.delivered,
+              bound |-> [x \in Ssrcs |-> e.bySsrc[x] # 0] ],
+    cls |-> ClsOf(e.last, hist'[Len(hist')].op) ]
+
+EmitProbes ==
+  \A s \in Ssrcs, pt \in Pts, rid \in Rids \cup {0}, mid \in Mids \cup {0} :
+     PrintT(<<"EDGE", ToJson(ProbeRec(s, pt, rid, mid))>>)
+
+EmitPkt ==
+  /\ (IF last'.kind = "pkt" THEN PrintT(<<"EDGE", ToJson(EdgeRec)>>) ELSE TRUE)
+  /\ (IF Destructive /\ Len(hist') <= ProbeMaxLen THEN EmitProbes ELSE TRUE)
 NoEmit   == TRUE
 =============================================================================
